@@ -104,8 +104,14 @@ def install(fl):
             return getattr(real_shutil, name)
 
         def rmtree(self, p, *a, **k):
-            fl.op("rmtree", p)
-            return real_shutil.rmtree(p, *a, **k)
+            # removal of a directory tree is a SEQUENCE of file-system operations: a fault or a crash can hit between
+            # any two of them (e.g. metadata gone, directory still there)
+            for dirpath, dirnames, filenames in real_os.walk(p, topdown=False):
+                for fn in sorted(filenames):
+                    fl.op("unlink", real_os.path.join(dirpath, fn))
+                    real_os.unlink(real_os.path.join(dirpath, fn))
+                fl.op("rmdir", dirpath)
+                real_os.rmdir(dirpath)
 
     class FileProxy:
         def __init__(self, f, path):
@@ -137,20 +143,21 @@ def install(fl):
     return inj
 
 
-def plugins(rechunk):
+def plugins(rechunk, fail=False):
     P = [ctx.P_source("src", "ksrc", LAY, False, rechunk_on_save=False),
-         ctx.P_map("m1", "src", False, rechunk_on_save=rechunk),
+         ctx.P_map("m1", "src", False, rechunk_on_save=rechunk, fail_at=1 if fail else None),
          ctx.P_split2(["sa", "sb"], "m1", False, 6, rechunk_on_save=rechunk)]
     for p in P:
         p.chunk_target_size_mb = 2 * 32 / 1e6 + 1e-7 if rechunk else 200
     return P
 
 
-def run_make(root, cfg, fl=None):
+def run_make(root, cfg, fl=None, fail=False):
     """One `make` of the target in a new Context on `root`; returns the exception raised (or None)."""
     import strax
 
-    st = ctx.make_context(plugins(cfg["rechunk"]), storage=[strax.DataDirectory(root)], timeout=10)
+    ctx.COUNTS.clear()  # the failing plugin variant counts its compute calls
+    st = ctx.make_context(plugins(cfg["rechunk"], fail), storage=[strax.DataDirectory(root)], timeout=10)
     kw = dict(processor="single_thread") if cfg["proc"] == "single" else dict(processor="threaded_mailbox")
     if cfg.get("workers"):
         kw["max_workers"] = cfg["workers"]
@@ -196,6 +203,8 @@ def inspect(root, cfg, ref, label):
 
 def count_ops(cfg):
     root = tempfile.mkdtemp(prefix="verif_c04_cnt_")
+    if cfg.get("prior"):
+        assert run_make(root, cfg, fail=True) is not None  # an earlier attempt died of a plugin exception: broken data
     fl = FaultLayer(root)
     inj = install(fl)
     try:
@@ -215,6 +224,8 @@ def sym_fault(cfg, kind, retries=1):
     base = tempfile.mkdtemp(prefix="verif_c04_")
     root = os.path.join(base, "data")
     os.makedirs(root)
+    if cfg.get("prior"):
+        run_make(root, cfg, fail=True)  # broken data of an earlier failed attempt lies in the directory
     fl = FaultLayer(root)
     inj = install(fl)
     try:
@@ -270,10 +281,11 @@ def sym_twin():
 
 CONFIGS = {
     "quick": [dict(proc="single", rechunk=False), dict(proc="single", rechunk=True),
-              dict(proc="threaded", rechunk=False, workers=2)],
+              dict(proc="threaded", rechunk=False, workers=2), dict(proc="single", rechunk=False, prior=True)],
     "thorough": [dict(proc="single", rechunk=False), dict(proc="single", rechunk=True),
                  dict(proc="threaded", rechunk=False, workers=2), dict(proc="threaded", rechunk=True, workers=2),
-                 dict(proc="threaded", rechunk=False)],
+                 dict(proc="threaded", rechunk=False), dict(proc="single", rechunk=False, prior=True),
+                 dict(proc="threaded", rechunk=False, workers=2, prior=True)],
 }
 
 
@@ -300,9 +312,101 @@ MUTANTS = [
          old='            if "exception" in meta:', new='            if False:'),
 ]
 
+# ---------------------------------------------------------------------------- thread-pool saving: when a write completes
+def sym_pool_race(nchunks, bad):
+    """Real Saver.save_from with an executor whose futures complete at a solver-chosen moment: the future of chunk
+    `bad` (its write FAILS) turns 'done' at its k-th done() poll (k = 0: at once, large k: only at close).  Whatever k
+    is, the failure must surface - raised out of save_from, kept in got_exception, or recorded in the metadata - and
+    the data must not be finalised as complete."""
+    import concurrent.futures as cf
+    import strax
+
+    k = core.concretize(fresh_int("k", 0, 2 * nchunks + 1))
+
+    class Fut(cf.Future):
+        def __init__(self, flip_after, exc):
+            super().__init__()
+            self.polls, self.flip_after, self.exc = 0, flip_after, exc
+
+        def _complete(self):
+            if not super().done():
+                if self.exc is not None:
+                    self.set_exception(self.exc)
+                else:
+                    self.set_result(None)
+
+        def done(self):
+            self.polls += 1
+            if self.polls > self.flip_after:
+                self._complete()
+            return super().done()
+
+        def exception(self, timeout=None):
+            self._complete()
+            return super().exception(timeout)
+
+        def result(self, timeout=None):
+            self._complete()
+            return super().result(timeout)
+
+    MemFrontend, MemBackend, MemSaver = ctx.make_storage_classes()
+
+    class PoolSaver(MemSaver):
+        def _save_chunk(self, data, chunk_info, executor=None):
+            i = chunk_info["chunk_i"]
+            if i != bad:
+                self.entry["chunks"][i] = data
+            f = Fut(k if i == bad else 0, OSError("disk full") if i == bad else None)
+            return dict(filename=f"mem-{i}"), f
+
+    be = MemBackend()
+    md = dict(run_id="0", data_type="x", data_kind="k", dtype="d", compressor="none", lineage={}, lineage_hash="h",
+              chunk_target_size_mb=200)
+    saver = PoolSaver("key", md, be)
+    dt = np.dtype([("time", np.int64), ("endtime", np.int64)])
+
+    def source():
+        for i in range(nchunks):
+            a = np.zeros(1, dt)
+            a["time"], a["endtime"] = 10 * i, 10 * i + 1
+            yield strax.Chunk(start=10 * i, end=10 * i + 10, data=a, dtype=dt, data_type="x", data_kind="k", run_id="0")
+
+    import concurrent.futures
+
+    orig_wait = strax.storage.common.wait
+
+    def wait_stub(fs, timeout=None, return_when=None):
+        for f in fs:
+            f._complete()
+        return set(fs), set()
+
+    strax.storage.common.wait = wait_stub
+    raised = None
+    try:
+        try:
+            saver.save_from(source(), rechunk=False, executor=object())
+        except OSError as e:
+            raised = e
+    finally:
+        strax.storage.common.wait = orig_wait
+    reported = raised is not None or saver.got_exception is not None or "exception" in saver.md
+    prove(reported, f"pool_race:write of chunk {bad} failed on the pool (future done at its poll {k}) but nothing reports it")
+    prove(not ("writing_ended" in saver.md and "exception" not in saver.md),
+          f"pool_race:data finalised as complete although the write of chunk {bad} failed (future done at its poll {k})")
+    return k
+
+
+def nat_pool_race(params, model):
+    label = core.concrete_run(lambda: sym_pool_race(**params), model)
+    return {"ok": label is None, "detail": label or "failure reported", "label": label}
+
+
 OBLIGATIONS = [
     Ob("fault", sym_fault, _grid, nat_fault, setup=_setup, witnesses=1, max_paths=5000,
        doc="for every counted file-system operation and fault kind: stored => loads and correct; retry succeeds; a "
            "failed save is never reported as success"),
+    Ob("pool_race", sym_pool_race, lambda tier: [dict(nchunks=n, bad=b) for n in (2, 3) for b in range(n)], nat_pool_race,
+       setup=_setup, witnesses=1,
+       doc="thread-pool saving: the poll at which the failing write's future turns done is chosen by the solver"),
     Ob("twin", sym_twin, lambda tier: [dict()], None, setup=_setup, expect_cex=True),
 ]
